@@ -399,13 +399,6 @@ func emitSites(p *pkg, server *pkg, out string) {
 			case *ast.DeferStmt:
 				if bufName != "" && p.src(n.Call) == "saveBuffer("+bufName+")" {
 					defers++
-					return false // the deferred call itself is not an early release
-				}
-			case *ast.CallExpr:
-				// a saveBuffer call that is not the deferred one hands the buffer back while the function still runs
-				// (and the deferred call will hand it back a second time): counted as an escape
-				if bufName != "" && p.src(n) == "saveBuffer("+bufName+")" {
-					escapes++
 				}
 			case *ast.ReturnStmt:
 				for _, r := range n.Results {
@@ -551,8 +544,35 @@ func (p *pkg) addendaStructFields(typ string) []string {
 	return out
 }
 
+// createWrappers: the normalised body of every SEC-specific `BatchXXX.Create` (receiver renamed to r, comments and
+// layout dropped): expected to be "build, then Validate" for all of them
+func (p *pkg) createWrappers() [][2]string {
+	var out [][2]string
+	for _, t := range sortedKeys(p.types) {
+		if (!strings.HasPrefix(t, "Batch") || t == "Batch") && t != "IATBatch" {
+			continue
+		}
+		fd, ok := p.funcs[t+".Create"]
+		if !ok || fd.Body == nil {
+			continue
+		}
+		out = append(out, [2]string{t + ".Create", normRecv(p.stmtsSrc(fd.Body.List), recvIdent(fd))})
+	}
+	return out
+}
+
 func emitAddenda(p *pkg, out string) {
 	lf := newLean("Addenda")
+	lf.pf("/-- normalised bodies of the SEC-specific Create methods -/\ndef createWrappers : List (String × String) := [\n")
+	cw := p.createWrappers()
+	for i, w := range cw {
+		sep := ","
+		if i == len(cw)-1 {
+			sep = ""
+		}
+		lf.pf("  (%s, %s)%s\n", leanStr(w[0]), leanStr(w[1]), sep)
+	}
+	lf.pf("]\n\n")
 	lf.pf("/-- the Addenda* fields each function selects, in source order; `struct:<T>` = the addenda-record fields of T -/\n")
 	lf.pf("def addendaFields : List (String × List String) := [\n")
 	keys := []string{"EntryDetail.addendaCount", "Writer.writeBatch", "Writer.writeIATBatch", "IATBatch.isBatchEntryCount",
